@@ -17,7 +17,8 @@ CHECKS = {
             'trailing; echoed register/value variants; AA55 length/type/checksum variants) and all short strings over '
             'the constants the validators compare against are fed to the real validators; acceptance implies the '
             'independent classifier calls the string a well-formed answer, and only documented outcomes occur. '
-            'Representatives of each invalid class are also served through the real transports.',
+            'Representatives of each invalid class are also served through the real transports, on fresh objects and after an '
+            'earlier well-answered request on the same object (same / other typed command, raw command with the same / other bytes).',
             'Trusted: mc/wire.classify_response (written from the statement).  Exhaustive over the stated finite '
             'domain, not over all byte strings; the argument why the grammar reaches every position the validators '
             'read is in DESIGN.md.',
@@ -49,7 +50,8 @@ CHECKS = {
             'selector loop and transports; a monitor checks termination, the transmission bound, the completion '
             'bound and the exact silent-peer timing on every execution; the same exploration is repeated from non-initial '
             'states (after a success, a delayed rejection, exhausted retries, fragments, a late answer on the same '
-            'object), and the thorough tier replays 74 traces on real loopback sockets to bind the kernel model to '
+            'object, and after EVERY single-letter earlier request of the alphabet, with and without draining what it left in '
+            'flight), and the thorough tier replays 74 traces on real loopback sockets to bind the kernel model to '
             'reality.  This is a coverage statement over all orderings the alphabet can produce, which example tests '
             'cannot give.',
             'Trusted: kernel model (mc/kernel.py: sockets, selector, virtual clock), CPython 3.12.1 asyncio, the '
@@ -63,7 +65,8 @@ CHECKS = {
             'must show exactly retries+1 identical transmissions spaced exactly one timeout and fail one timeout '
             'after the last.  connect()/discover()/search_inverters() are run for every family, port and '
             '(timeout, retries) of a grid against a silent kernel and a kernel that answers only the first request; '
-            'every request they issue must show the configured budget.',
+            'every request they issue must show the configured budget; ordered pairs of entry-point calls with different '
+            '(timeout, retries) in one process state are judged call by call.',
             'Trusted: kernel model, CPython 3.12.1 asyncio, request boundaries observed by wrapping '
             'ProtocolCommand.execute from the harness.  Bounded by history depth (2 quick / 3 thorough); the '
             'evidence reports in how many configurations the state fixpoint was reached below the bound.',
@@ -75,7 +78,8 @@ CHECKS = {
             'within the proviso of the property) is executed for N=2 (N=3 in the thorough tier; deviation-bounded '
             'beyond).  The monitor checks mutual exclusion on the wire against the peer-side record of outstanding '
             'transmissions, that each caller gets its own tag, deadlock freedom and the loop exception handler; the callers '
-            'are also started right after an earlier request on the same object (rejected late, fragmented, garbage, exhausted).',
+            'are also started right after an earlier request on the same object (rejected late, fragmented, garbage, exhausted) '
+            'and ask for blocks of different length (1/2/4 registers), so that their validators differ.',
             'Trusted: kernel model, CPython 3.12.1 asyncio (Lock fairness, task wake-up order are the real ones).',
             'DESIGN.md section 3, C06'),
     'C07': ('model_checking',
@@ -86,8 +90,8 @@ CHECKS = {
             'counts, +-1 byte, other block, garbage) and left-over-fragment scenarios over several transmissions '
             'are checked against an oracle that only accepts well-formed frames (independent classifier) made of '
             'data received for the final transmission; cross-request scenarios (a fragment left by an earlier request that ended '
-            'with an exception frame, a timeout or a late remainder) and a second protocol object active between the two '
-            'pieces are included.',
+            'with an exception frame, a timeout or a late remainder), a second protocol object active between the two '
+            'pieces, and other callers queueing on the same object while the fragments arrive are included.',
             'Trusted: kernel model (stream transport coalesces simultaneous pieces as the real one does), mc/wire.py. '
             'Two fragments only; second-piece alphabet as listed in the evidence.',
             'DESIGN.md section 3, C07'),
@@ -181,7 +185,7 @@ CHECKS = {
             'For representative models of every predicate class and several register-file fills, after every history of '
             'runtime reads, single reads and device changes (battery appears/disappears, blocks become refused) up to the '
             'depth bound, read_sensor(id) is called for every id of sensors() and compared with the bulk read of the '
-            'unchanged registers.',
+            'unchanged registers; a listed id that the bulk read reports must never be unknown to read_sensor.',
             'Trusted: device model; register file static between single and bulk read.  Sensors without a single-read '
             'path (Calculated, EnumCalculated, EnumBitmap22) are recorded as known findings.',
             'DESIGN.md section 3, C16'),
@@ -192,7 +196,8 @@ CHECKS = {
             'domain (full domain for one setting per type in the thorough tier, boundary values for all); the device '
             'model\'s write log and register-file diff must show exactly one write of the right function to exactly the '
             'setting\'s registers carrying the reference encoding, every other register (including the other half of a '
-            'shared register) unchanged, and the read-back must equal the value.',
+            'shared register) unchanged, and the read-back must equal the value; one setting per type is also written with '
+            'keep-alive on/off, a slow inverter (latency up to 0.9 timeout) and one request answered with an exception.',
             'Trusted: device model, reference encoders of mc/refdec.py.  Sentinel encodings (0xFFFF..) are outside the domain.',
             'DESIGN.md section 3, C17'),
     'C18': ('model_checking',
@@ -211,7 +216,8 @@ CHECKS = {
             'the reference decoder.  End to end: every mode of get_operation_modes(True) x (power, SoC) boundary grid x '
             'every prior content of eco group 1 (all schedule types, undecodable) x ET {v1, v2, no peak shaving, 745} and '
             'ES {arm 6, arm 14, v2}, plus every ordered pair of modes; getter must return the mode set, group 1 must '
-            'decode to the request and groups 2-4 be off; export limit and DoD round trips.',
+            'decode to the request and groups 2-4 be off; export limit and DoD round trips; every setter x every request '
+            'position answered with a Modbus exception (codes 1/3/4/6): a setter that reports success agrees with its getter.',
             'Trusted: device model links listed in the evidence; interpretation (i)-(iv) of DESIGN.md C19.',
             'DESIGN.md section 3, C19'),
     'C20': ('model_checking',
